@@ -314,6 +314,33 @@ def gen_dataset(rng, cfg):
         quads.append([rng.choice(SUBJ), 10, 26, rng.choice(pop)])  # empty list as object
     if pop and rng.random() < 0.08:
         quads.append([34, 35, rng.choice([24, 34]), rng.choice(pop)])   # predicate local name ends in "."
+    if pop and rng.random() < 0.3:
+        # a cycle and a diamond along e:p (nodes reached twice: transitive walks, paths)
+        g = rng.choice(pop)
+        for t in ([1, 10, 2], [2, 10, 3], [3, 10, 1], [1, 10, 3], [3, 10, 28]):
+            if t + [g] not in quads and rng.random() < 0.85:
+                quads.append(t + [g])
+    if pop and rng.random() < 0.3:
+        # a GROUND dataset (no blank nodes: isomorphism is equality, the compare functions' answers are determined) …
+        sub = {4: 1, 5: 2, 6: 3, 7: 1, 8: 2, 9: 3}
+        ground = []
+        for q in quads:
+            q2 = [sub.get(q[0], q[0]), q[1], sub.get(q[2], q[2]), q[3]]
+            if q2 not in ground:
+                ground.append(q2)
+        quads = ground
+        named = [g for g in pop if g != 0]
+        if len(pop) >= 2 and rng.random() < 0.6:
+            # … with a graph that is another one's copy, or its copy with one object changed (same size, not isomorphic)
+            a, b = rng.sample(pop, 2)
+            quads = [q for q in quads if q[3] != b]
+            src = [q for q in quads if q[3] == a]
+            for i, q in enumerate(src):
+                o = q[2]
+                if i == 0 and rng.random() < 0.6:
+                    o = 28 if o != 28 else 1
+                if [q[0], q[1], o, b] not in quads:
+                    quads.append([q[0], q[1], o, b])
     return quads, sorted(set(empty))
 
 
@@ -370,7 +397,16 @@ def gen_read(rng, cfg, quads, kind=None):
     if kind == "cmp":
         f = rng.choice(["isomorphic", "to_isomorphic", "to_canonical_graph", "graph_diff", "similar", "g_isomorphic",
                         "internal_hash", "setop+", "setop-", "setop*", "setop^", "skolemize", "eq"])
-        return ["cmp", f, rng.choice([-1, 0, 1, 3, gsel()]), rng.choice([-1, 0, 2, 3, gsel()])]
+        present = sorted({q[3] for q in quads}) or [0]
+        pa = rng.choice(present) if rng.random() < 0.5 else rng.choice([-1, 0, 1, 3, gsel()])
+        pb = rng.choice(present) if rng.random() < 0.5 else rng.choice([-1, 0, 2, 3, gsel()])
+        sizes = {}
+        for q in quads:
+            sizes[q[3]] = sizes.get(q[3], 0) + 1
+        twins = [(a, b) for a in sizes for b in sizes if a != b and sizes[a] == sizes[b]]
+        if twins and rng.random() < 0.6:     # two graphs of the same size: the interesting operands for isomorphic / graph_diff
+            pa, pb = rng.choice(twins)
+        return ["cmp", f, pa, pb]
     if kind == "basic":
         f = rng.choice(["len", "iter", "contains3", "triples", "slice", "getitem", "subjects", "predicates", "objects",
                         "subject_objects", "subject_predicates", "predicate_objects", "triples_choices", "bool", "str",
@@ -386,6 +422,8 @@ def gen_read(rng, cfg, quads, kind=None):
                         "transitiveClosure", "seq", "isomorphic_copy", "absolutize"])
         q = some()
         head = rng.choice([7, 8, q[0], q[2] if q[2] in SUBJ else 7, 26])
+        if f.startswith("transitive") and rng.random() < 0.5:
+            q = [rng.choice([1, 2, 3]), 10, rng.choice([1, 2, 3, 28]), 0]     # along the e:p cycle / diamond, if there
         return ["nav", f, q[0], q[1], q[2], head]
     # context-aware reads (Dataset / ConjunctiveGraph only)
     f = rng.choice(["graphs", "contexts", "graphs_t", "quads", "contains4", "triples_ctx", "triples4", "get_context",
